@@ -538,6 +538,11 @@ func (service *HTTPService) _decryptSearchable(ctx *gin.Context, data []byte) (r
 	}
 
 	hash := hmac.ExtractHash(request.Data)
+	if hash == nil {
+		logger.WithField("content_type", ctx.ContentType()).Errorln("Invalid hash")
+		httpErr = NewHTTPError(http.StatusBadRequest, "Invalid request data")
+		return
+	}
 	hashData := hash.Marshal()
 	acraStruct := request.Data[len(hashData):]
 	decryptedData, err := service.service.DecryptSearchable(service.ctx, acraStruct, hashData, connectionClientID, nil)
